@@ -63,6 +63,8 @@ def build(repo="/repo", san=False, quiet=True):
     ensure_config_h(repo)
     flags = ["-std=c++11", "-O1", "-g0", "-DHAVE_CONFIG_H", "-D" + GUARD,
              "-I" + repo, "-I" + os.path.join(repo, "src")]
+    if os.environ.get("VERIF_DEBUG_BUILD"):
+        flags[1:3] = ["-O0", "-g"]
     if san:
         flags += ["-g", "-fsanitize=address,undefined",
                   "-fno-sanitize-recover=undefined", "-fno-omit-frame-pointer"]
